@@ -23,8 +23,10 @@ RULE = ("(a) EXHAUSTIVE enumeration of small skeletons: every parent x child x g
         "parameterised unary parents and grandchildren (sliced like the binary part), and all 3-ary "
         "sums/products over rule-relevant children (quick tier: a VERIF_SEED-chosen 1/16 slice of the binary part; "
         "thorough: all of it); (b) generated trees/DAGs up to ~400 nodes and redex templates; (c) nested chains up to "
-        "depth 150; (d) raw symbolic partials.  The harness drives _take_reduction_step to the fully-reduced flag and "
-        "checks the trace invariant: no form (canonical model, consecutive duplicates collapsed) ever repeats; steps <= "
+        "depth 150; (d) raw symbolic partials; (e) *reuse*: an expression the library returned (a normal form or a simplified "
+        "partial) used, as the very object, as an operand of a new expression (16 contexts).  The harness drives _take_reduction_step to the fully-reduced flag and "
+        "checks the trace invariant: no form (canonical model, consecutive duplicates collapsed) ever repeats, and no form is "
+        "returned unchanged for more than 2 steps per node + 10 (flag propagation only); steps <= "
         "s^2+10s+50 and every intermediate size <= 3s+10 (s = input nodes); the final form is rule-free (a fresh copy of "
         "it reaches the flag with no structural change); for s <= 20 the library's own _normalize() emits no "
         "step-budget warning.  Non-trivial = a trace with >= 2 structural rewrites; distinct by canonical input.")
@@ -170,16 +172,17 @@ def skeleton_blocks():
             ("binary-parents", True, binary_parents), ("nary-mid", True, nary_mid)]
 
 
-def invariant(stats, m, sub, big=False):
+def invariant(stats, m, sub, big=False, start=None, case=None):
     """Drives the simplifier on a fresh build of m (streaming: constant memory) and checks the
-    trace invariant."""
-    m = safe(m)
+    trace invariant.  start: drive this already built object (whose model is m) instead of a fresh build."""
+    if start is None:
+        m = safe(m)
     stats.case()
     s = M.size(m)
     step_bound = s * s + 10 * s + 50
-    case = make_case(sub, m, None, size=s)
+    case = case or make_case(sub, m, None, size=s)
     what = M.text(m)[:300]
-    cur = build(m)
+    cur = build(m) if start is None else start
     seen = {}
     last = None
     stutter = 0
@@ -349,15 +352,62 @@ def make_partials(stats):
     return test
 
 
+REUSE_CONTEXTS = ["id", "Negation", "Reciprocal", "Add-x", "x-Add", "Multiply-x", "Minus-left", "Minus-right", "Divide-left",
+                  "Divide-right", "NthPower2", "Exponential", "Add-self", "Multiply-self", "Logarithm", "Sine"]
+
+
+def check_reuse(stats, m1, how, var, ctx, sub="reuse"):
+    """An expression the library RETURNED (normal form of m1, or a simplified symbolic partial of it) is used - as the
+    very object - as an operand of a new expression, which must again rewrite to a form to which no rule applies."""
+    m1 = safe(m1)
+    e1 = build(m1)
+    out = lib.call((lambda: e1._normalize()) if how == "normalize" else (lambda: lib.Partial(e1, var).as_expression()))
+    if out.kind != lib.EXPR:
+        stats.count("reuse-no-expression:" + out.kind)
+        return
+    r = out.value
+    mr = to_model(r)
+    if M.size(mr) > 200:
+        stats.count("too-large")
+        return
+    x = ("Variable", var)
+    mc = {"id": mr, "Negation": ("Negation", mr), "Reciprocal": ("Reciprocal", mr), "Add-x": ("Add", (mr, x)), "x-Add": ("Add", (x, mr)),
+          "Multiply-x": ("Multiply", (mr, x)), "Minus-left": ("Minus", mr, x), "Minus-right": ("Minus", x, mr),
+          "Divide-left": ("Divide", mr, x), "Divide-right": ("Divide", x, mr), "NthPower2": ("NthPower", mr, 2),
+          "Exponential": ("Exponential", mr, 2), "Add-self": ("Add", (mr, mr)), "Multiply-self": ("Multiply", (mr, ("Constant", 2), mr)),
+          "Logarithm": ("Logarithm", mr, 2), "Sine": ("Sine", mr)}[ctx]
+    start = build(mc, share=True, memo={id(mr): r})
+    stats.count("reuse:" + ctx)
+    case = make_case(sub, m1, None, how=how, var=var, ctx=ctx)
+    invariant(stats, mc, sub, start=start, case=case)
+
+
+def make_reuse(stats):
+    @given(st.data())
+    def test(data):
+        names = data.draw(S.name_lists(1, 3))
+        if data.draw(st.booleans()):
+            _t, m1 = data.draw(RX.placed(names, depth=1))
+        else:
+            m1 = data.draw(S.expressions(names, depth=2))
+        check_reuse(stats, m1, data.draw(st.sampled_from(["normalize", "partial"])), data.draw(st.sampled_from(names)),
+                    data.draw(st.sampled_from(REUSE_CONTEXTS)))
+    return test
+
+
 def parts(tier):
     n = 6000 if tier == "quick" else 100000
     return [run_part("skeletons", run_skeletons(tier)),
-            hyp_part("random", make_random, int(n * 0.5)),
+            hyp_part("random", make_random, int(n * 0.45)),
             hyp_part("chains", make_chains, int(n * 0.15)),
-            hyp_part("partials", make_partials, int(n * 0.35))]
+            hyp_part("partials", make_partials, int(n * 0.3)),
+            hyp_part("reuse", make_reuse, int(n * 0.25))]
 
 
 def replay(case):
+    if case.get("sub") == "reuse":
+        check_reuse(Stats(), case_model(case), case["how"], case["var"], case["ctx"])
+        return
     invariant(Stats(), case_model(case), case.get("sub", "skeleton"))
 
 
